@@ -232,6 +232,8 @@ def C13(run):
             nb += 1
             if nb <= 2:
                 run.violation(dict(kind='implementation', what='guarded with guard=0 differs from fixed', case=op_line(it), guarded=x, fixed=y))
+    # the tolerance does not depend on the display setting, and the class statistics record every comparison
+    ncs = cmpstats_check(run, rng)
     # ... and every count
     nce, ncd = equivalence_counts(run, rng)
     # quasi-exact equals exact when the statistics are clear (explored)
@@ -239,16 +241,60 @@ def C13(run):
     if broken and not run.violations:
         run.violation(dict(kind='theorem', broken=broken), 'no-failing-input-found')
     cov = run.coverage
-    cov['evaluations'] = len(items) + len(g0) + nce + qstats.get('runs', 0)
+    cov['evaluations'] = len(items) + len(g0) + ncs + nce + qstats.get('runs', 0)
     cov['distinct_nontrivial'] = len({op_line(it) for it in items if it[3] == 'cmp'})
     cov['traces_validated_against_impl'] = len(items) - nmodel
     cov['rule'] = ('guarded operand tuples aimed at the tolerance boundary (|a-b| = 10^g/2 -1/0/+1) plus random and grid tuples; guard=0 vs fixed on '
                    'operations and on whole counts; guarded vs rational counts when the comparison statistics are clear; non-trivial = a comparison')
     cov['distribution'] = dict(stats)
+    cov['comparison_sequences_with_statistics'] = ncs
     cov['g0_vs_fixed_ops'] = len(g0); cov['g0_vs_fixed_counts'] = nce; cov['g0_vs_fixed_count_differences'] = ncd
     cov['quasi_exact'] = qstats
     cov['samples'] = [op_line(it) for it in items[:3]]
     run.assumptions = ['third clause (quasi-exact = exact) is explored, not proved: see DESIGN.md C13']
+
+
+_CMP_OPS = {'lt': lambda c: c < 0, 'le': lambda c: c <= 0, 'eq': lambda c: c == 0, 'ne': lambda c: c != 0,
+            'gt': lambda c: c > 0, 'ge': lambda c: c >= 0}
+
+
+def cmpstats_check(run, rng):
+    """sequences of comparisons through the six operators, under every display setting: outcome = the model's guardedCmp,
+    Guarded.maxDiff / minDiff afterwards = the model's statsRun (lean/DroopModel/Values.lean; theorems stats_*_bounds, stats_clear_exact)"""
+    items = []
+    for _ in range(budget(run, 3000, 40000)):
+        p = rng.randint(0, 9); g = rng.randint(0, 9)
+        display = rng.choice([None, 0, p, p + g, rng.randint(0, p + g + 2)])
+        half = 10 ** g // 2
+        seq = []
+        for _ in range(rng.randint(1, 6)):
+            a0 = rng.randint(-10 ** rng.choice([2, 6, 14]), 10 ** rng.choice([2, 6, 14]))
+            d = rng.choice([half - 1, half, half + 1, 0, 1, -1, -half, -half + 1, -half - 1, 10 ** g, -10 ** g,
+                            rng.randint(-half - 2, half + 2), rng.randint(-10 ** (g + 1), 10 ** (g + 1))])
+            seq.append((rng.choice(sorted(_CMP_OPS)), a0, a0 + d))
+        items.append((p, g, display, seq))
+    impl = common.pmap(implops.run_cmpstats, items, limit=10.0, chunksize=200)
+    model = common.run_driver_parallel(['CMPSTATS %d %d %s' % (p, g, ' '.join('%d %d' % (a, b) for _, a, b in seq)) for p, g, _, seq in items])
+    nb = 0
+    for it, i, m in zip(items, impl, model):
+        if isinstance(i, tuple):
+            continue
+        try:
+            cs, mx, mn = m.split(' ')
+            want = '%s %s %s' % (','.join('1' if _CMP_OPS[op](int(c)) else '0' for (op, _, _), c in zip(it[3], cs.split(','))), mx, mn)
+        except Exception:
+            want = 'MODEL:' + m
+        if i != want:
+            nb += 1
+            if nb <= 2:
+                p, g, display, seq = it
+                geps = max(1, 10 ** g // 2)
+                subtol = [abs(a - b) for _, a, b in seq if abs(a - b) < geps]
+                run.violation(dict(kind='implementation', what='Guarded comparisons / comparison statistics differ from the tolerance law '
+                                   '(equal iff |a-b| < 10^guard/2 whatever the display; maxDiff = largest sub-tolerance difference, minDiff = smallest other)',
+                                   precision=p, guard=g, display=display, comparisons=[[op, str(a), str(b)] for op, a, b in seq],
+                                   implementation=i, expected=want, largest_subtolerance_difference=max(subtol) if subtol else 0))
+    return len(items)
 
 
 def _count_pair(item):
